@@ -58,7 +58,7 @@ func c03(c *Ctx) {
 	r.Rule("R03.P", "padding before IGE: 0 <= pad <= 15 and (len+pad) % 16 == 0 for every residue", 1)
 	r.Rule("R03.E", "isPacketEncrypted tests the 8-byte position the unencrypted writer fills with zero", 1)
 	tr := an.NewTracer()
-	r.Rule("R03.A", "a packet a conformant server sealed is opened: the success exit of the two readers and of transport.ReadMsg is reachable for every msg_id with low bits 01 / 11, whatever its sign (ids of 2038 and later are negative as int64)", 3)
+	r.Rule("R03.A", "a packet a conformant server sealed is opened: the success exit of the two readers and of transport.ReadMsg is reachable for every msg_id with low bits 01 / 11, whatever its sign (ids of 2038 and later are negative as int64) and for every honest combination of packet length, declared length and 0..15 padding bytes", 4)
 	c03Acceptance(c)
 	r.Rule("R03.K", "key schedule: the aes_key / aes_iv expressions extracted from generateAESIGE (both directions) are the MTProto 1.0 formulas — every window of auth_key, every SHA-1 input order, every digest slice", 4)
 	if c.verifySummaries("R03.K") {
@@ -478,6 +478,14 @@ func shaWindow(v ssa.Value, tr *an.Tracer, f *ssa.Function) string {
 func c03Acceptance(c *Ctx) {
 	r := c.R
 	tr := an.NewTracer()
+	if f := c.P.Func(load.MsgPkg, "", "DeserializeEncrypted"); f != nil {
+		bad, n, ok := honestLengthsAdmitted(c, f, tr)
+		if !ok {
+			r.Undecide("R03.A", "accept:encrypted/lengths", c.pos(f.Pos()), "declared length or success exit not found")
+		} else {
+			r.Check(len(bad) == 0, "R03.A", "accept:encrypted/lengths", c.pos(f.Pos()), sprintf("%d honest (packet length, declared length, padding 0..15) points evaluated; refused: %s", n, strings.Join(bad, "; ")))
+		}
+	}
 	for _, t := range []struct{ pkg, recv, name, key string }{
 		{load.MsgPkg, "", "DeserializeEncrypted", "accept:encrypted"},
 		{load.MsgPkg, "", "DeserializeUnencrypted", "accept:plain"},
